@@ -234,6 +234,13 @@ def run(shard, ctx):
                         new = rng.choice(["name", "list", "container"])
                         nms = rng.sample(["C", "D", "E", "F", "G", "A", "B"], rng.randint(1, 3))
                         b[i] = nms[0] if new == "name" else nms if new == "list" else NoteContainer([Note(x, rng.randint(2, 5)) for x in nms])
+                        if not hasattr(b.bar[i][2], "notes"):
+                            # (what bar[i] = ... stores is C13's to judge; here the history cannot go on)
+                            ctx.unsure("bar[i] = %s stored %r, which is no note container: the transposition history was abandoned" % (new, b.bar[i][2]))
+                            steps = steps[:si]
+                            break
+                    if len(steps) <= si:
+                        break
                 before = MU.snap_track(t)
                 w = {"track": ti, "level": level, "steps": steps[:si + 1], "bars": len(before)}
                 if level == "track":
